@@ -25,8 +25,10 @@ parsing happen per message above the framer (`Framing.deliver`) and are paramete
 
 Not modelled (outside the property: streams on which the unsplit run raises): what the
 HTTP *server* and the event channel do after a parse exception (500 + buffer dropped /
-exception swallowed inside the loop — D3b, C05); a data-stream header with `size = 0`
-(D3a, C05) is reported as `err stall`.
+exception swallowed inside the loop — D3b, C05).  A data-stream header whose `size` is smaller
+than the header raises `ProtocolError` (`fix: data stream channel rejects a header whose size is
+smaller than the header`, D3a/C05; the pinned loop, which spun on `size = 0`, is
+`C05.Model.dataStreamPinned`).
 -/
 namespace PyatvModel.C02
 open PyatvModel PyatvModel.Framing
@@ -107,8 +109,8 @@ def dataStream : Framer (Bytes × Bytes) := ⟨fun b =>
   if b.length < dataHeaderLength then .need
   else
     let size := be ((b.drop dataSizeOffset).take dataSizeWidth)
-    if b.length < size then .need
-    else if size = 0 then .err .stall                       -- D3a: nothing consumed, loops
+    if size < dataHeaderLength then .err .malformed         -- repaired D3a: `ProtocolError`
+    else if b.length < size then .need
     else .msg (b.take dataHeaderLength, (b.take size).drop dataHeaderLength) (b.drop size)⟩
 
 /-! ### HTTP / RTSP -/
@@ -173,24 +175,26 @@ def parseNat? (b : Bytes) : Option Nat :=
 /-- `content-length` (CaseInsensitiveDict key, lower-cased) -/
 def contentLengthKey : Bytes := [99, 111, 110, 116, 101, 110, 116, 45, 108, 101, 110, 103, 116, 104]
 
-/-- dict built from the header lines (last occurrence wins), then Content-Length -/
-def stdClenLines : List Bytes → Option Nat → Option Nat
-  | [], cur => cur
+/-- dict built from the header lines (last occurrence wins): the raw value stored under
+    `content-length`; outer `none` = a header line without ": " (`_key_value` raises) -/
+def stdClenLines : List Bytes → Option Bytes → Option (Option Bytes)
+  | [], cur => some cur
   | l :: ls, cur =>
     if l.isEmpty then stdClenLines ls cur
     else match splitKV [] l with
       | none => none
       | some (k, v) =>
-        if k.map lower = contentLengthKey then
-          match parseNat? v with
-          | none => none
-          | some n => stdClenLines ls (some n)
-        else stdClenLines ls cur
+        if k.map lower = contentLengthKey then stdClenLines ls (some v) else stdClenLines ls cur
 
+/-- `int(msg_headers.get("Content-Length", 0))`: only the value that ended up in the dict is parsed -/
 def stdClen (hdr : Bytes) : Option Nat :=
   match splitLines [] hdr with
   | [] => some 0
-  | _ :: ls => stdClenLines ls (some 0)
+  | _ :: ls =>
+    match stdClenLines ls none with
+    | none => none
+    | some none => some 0
+    | some (some v) => parseNat? v
 
 def firstLine (hdr : Bytes) : Bytes := (splitLines [] hdr).headD []
 
